@@ -5,7 +5,7 @@
    there (-Q coq "" -Q <scratch> Gen). *)
 Require Import List String Bool.
 Import ListNotations.
-Require Import Conc.TwoPLDefs Conc.Skel Conc.SkelOblig Conc.SkelSound.
+Require Import Conc.TwoPLDefs Conc.Skel Conc.SkelOblig Conc.SkelSound Conc.EraseSim.
 Require Import Gen.LockSkel Gen.Known.
 Local Open Scope string_scope.
 
@@ -30,3 +30,5 @@ Goal obl_facts shape_facts = true. Proof. vm_compute. reflexivity. Qed.
 (* no empty alternative list (side condition of go_bodies_all_sound: goroutines started from
    deferred calls are covered too) *)
 Goal forallb (fun p => neb (snd p)) (skels ++ helper_skels) = true. Proof. vm_compute. reflexivity. Qed.
+(* nesting depth within the fuel of [erase] (side condition of C13_ordered_acquisition_sound) *)
+Goal forallb (fun p => depth_ok 64 (snd p)) skels = true. Proof. vm_compute. reflexivity. Qed.
